@@ -220,7 +220,9 @@ package tree
 //@   ensures [C03,C05] safe: allSafe() && sepOK()
 //@   inv 1 [C05] bound: -1 <= rangeindex && rangeindex < len(n.children) && allSafe() && sepOK()
 //@   inv 1 [C03] only-covered: forall k int :: 0 <= k && k < len(dels) ==> hasPrefix(dels[k], prefix)
-//@   cut tree.node.clean 1 [C03] kept-across-recursion: (forall k int :: 0 <= k && k < len(dels) ==> hasPrefix(dels[k], prefix)) && fresh(dels) && allocated(dels) && unchanged("[]string")
+//@   cut tree.node.clean 1 [C03] kept-across-recursion: forall k int :: 0 <= k && k < len(dels) ==> hasPrefix(dels[k], prefix)
+//@   cut tree.node.clean 1 fresh-across-recursion: fresh(dels) && allocated(dels)
+//@   cut tree.node.clean 1 frame-across-recursion: unchanged("[]string")
 //@   inv 1 frame-strings: fresh(dels) && allocated(dels) && unchanged("[]string")
 //@   inv 2 [C05] bound2: -1 <= rangeindex && rangeindex < len(dels)
 //@   inv 2 [C03] only-covered: forall k int :: 0 <= k && k < len(dels) ==> hasPrefix(dels[k], prefix)
